@@ -20,16 +20,22 @@ PROPS_MODULE = "NessaiVerif.Props.C20"
 MANIFEST = dict(
     text="PARTIAL. (1) Lean theorems over models of the loops a run depends on - FlowProposal.populate (both branches, with the IEEE "
          "NaN/inf semantics of the weights), ImportanceFlowProposal.draw, FlowModel.check_batch_size, the batch-size halving and the "
-         "redraw loop of draw_final_samples, populate_live_points of both samplers: each ends within an explicit number of batches "
-         "under the progress hypothesis the code relies on (every batch accepts a point / max_samples / max_its), with post-conditions, "
-         "and for each loop without a guard the proof that it is still spinning after any number of batches when the hypothesis fails "
-         "(all-NaN, all-rejected or empty batches). The models are tied to the real methods by an exact scripted-stream correspondence. "
+         "redraw loop of draw_final_samples, populate_live_points of both samplers: for each an exact termination criterion over "
+         "arbitrary batch streams (the loop has ended iff the stream accepts enough points; a batch that is not Good - empty, one NaN "
+         "weight, +-inf maximum - accepts nothing), bounds where a guard exists (max_samples / max_its), post-conditions, and for each "
+         "loop without a guard the proof that it is still spinning after any number of batches when no batch can accept. "
+         "The models are tied to the real methods by an exact scripted-stream correspondence. "
          "(2) Interface tables of the post-sampling paths (the ~120 methods reachable from FlowSampler.run_*, finalise, "
          "draw_final_samples, ...) are regenerated from the nessai sources on every run (call-site keywords/arity vs callee signatures, "
          "attribute reads vs attributes defined in the class hierarchy) and proved by evaluation to conform except an explicit list of "
          "known defects, which is proved to be exactly the set of violations; the table is cross-checked against inspect.signature and "
          "finished real objects, and every listed defect an option reaches is replayed by a real run. "
-         "(3) NOT proved: that complete runs terminate and return valid results for every option value (pair). That is a bounded option "
+         "(3) A table of the raise statements guarded by an option (generated; 'upfront' = reachable from the constructors / before the "
+         "live points are drawn, 'late' = only once sampling has started) with the theorem that the options tested late are exactly a "
+         "listed set; each genuinely late validation is replayed. "
+         "(4) NOT proved: (a) the property's first half as such - that every unacceptable configuration is rejected BEFORE sampling "
+         "starts: the table only locates explicit raise statements, rejection up front is checked by the sweep (invalid-choice runs) "
+         "only; (b) that complete runs terminate and return valid results for every option value (pair). Both are a bounded option "
          "sweep on the real samplers (each value on its own; fixed pairwise covering arrays in the thorough tier) with a per-population "
          "draw budget, progress tracking and a wall-clock bound - evidence and failing-input search only.",
     note="Loop theorems are about the models; flows, likelihoods and RNG enter as batch streams. Table resolution is static (callees "
@@ -51,7 +57,8 @@ _STATE = {}
 def gen(ctx):
     try:
         tabs = T.Tables(core.REPO)
-        text = tabs.lean()
+        val = T.Validation(tabs.ix)
+        text = tabs.lean(val)
     except T.Untranslatable as e:
         ctx.broken("translator: post-sampling interface tables could not be generated", str(e))
         return
@@ -59,6 +66,7 @@ def gen(ctx):
         ctx.broken("translator: crashed on the current sources", repr(e))
         return
     _STATE["tables"] = tabs
+    _STATE["validation"] = val
     if not GEN_PATH.exists() or GEN_PATH.read_text() != text:
         GEN_PATH.write_text(text)
     ctx.trust("translator harness/c20_tables.py (ast: class index, call-site/attribute extraction, declared attribute types)")
@@ -325,6 +333,16 @@ def tables_tie(ctx):
     if out[0] != fmt(kv) or out[1] != fmt(av):
         ctx.disagree("violations computed by the Lean model differ from the translator's own computation",
                      {"kind": "tables", "model": out, "python": [fmt(kv), fmt(av)]})
+    val = _STATE.get("validation")
+    if val is not None:
+        late = ctx.model(["term viol late"])[0]
+        if late != "[" + ",".join(val.late_options()) + "]":
+            ctx.disagree("late-validated options computed by the Lean model differ from the translator's own computation",
+                         {"kind": "tables", "model": late, "python": val.late_options()})
+        ctx.extra["validation_sites"] = {"upfront": sum(1 for r in val.rows if r[0] == "upfront"), "late": sum(1 for r in val.rows if r[0] == "late"),
+                                         "late_options": val.late_options(), "options_known": len(val.options),
+                                         "rows": [list(r[:3]) + [list(r[3])] for r in val.rows]}
+        ctx.case(("validation-table", len(val.rows)), True, kind="table:validation-sites")
     ctx.extra["tables"] = {"methods": len(tabs.scope), "call_sites": len(tabs.call_sites), "attr_reads": len(tabs.attr_reads),
                            "unresolved_calls": tabs.unresolved_calls, "kw_violations": [list(v) for v in kv], "attr_violations": [list(v) for v in av]}
     # (a) static signatures == the signatures of the objects Python actually imports
@@ -432,6 +450,9 @@ def sweep(ctx, full=False):
         _run(ctx, "std", [f"{name}:{lab}"], [spec], seed0)
     for name, lab, spec in S.all_singles(S.STD_INVALID):
         _run(ctx, "std", [f"{name}:{lab}"], [spec], seed0)
+    if base_ok["std"]:
+        for labels, spec in S.STD_QUICK_PAIRS:
+            _run(ctx, "std", labels, [spec], seed0)
     for name, lab, spec in (S.all_singles(S.INS_OPTIONS) if base_ok["ins"] else []) + S.all_singles(S.INS_INVALID):
         _run(ctx, "ins", [f"{name}:{lab}"], [spec], seed0)
     if full:
